@@ -117,7 +117,7 @@ C04_FUNCTOR(min, (b < a ? b : a))
 C04_FUNCTOR(max, (a < b ? b : a))
 #undef C04_FUNCTOR
 
-// divRoundUp(a,b) = (a + b - 1) / b : exact for integers (native expression); three roundings for floats
+// divRoundUp(a,b): integers exact (ceiling of a/b for a >= 0, b > 0); floats (a + b - 1) / b with three roundings
 template <class T, class S>
 void dru_vv(const T *p, int, pbt::Ctx &)
 {
@@ -129,7 +129,13 @@ void dru_vv(const T *p, int, pbt::Ctx &)
   for (int i = 0; i < S::N; ++i) {
     const T a = p[i], b = p[4 + i];
     if constexpr (std::is_integral<T>::value) {
-      T e = T((a + b - 1) / b);
+      // lifting of the scalar function; where the statement of the scalar kernel defines it (a >= 0, b > 0) that is the
+      // ceiling of a/b, computed here in a wide type; elsewhere the scalar function itself is the definition
+      T e;
+      if (a >= 0 && b > 0)
+        e = T(((__int128)a + (__int128)b - 1) / (__int128)b);
+      else
+        e = rkcommon::math::divRoundUp(a, b);
       chk_exact(&e, &act[i], 1, "divRoundUp", i);
     } else {
       // (a+b) and (..-1) each round once (<= eps/2 relative to the partial result, which is <= |a|+|b|+1),
